@@ -56,6 +56,7 @@ class Episode(object):
         self.on_quiet = []         # callbacks(ep)
         self.cur_op = None
         self._seen = set()
+        self.gone = False
 
     # ------------------------------------------------------------ helpers
     def viol(self, oracle, msg, once=None, **facts):
@@ -172,6 +173,9 @@ class Episode(object):
     def run_ops(self):
         for i, op in enumerate(self.ops):
             if self.stopped():
+                break
+            if self.world.daemon_gone():
+                self.fired['ops_skipped_daemon_gone'] += 1
                 break
             self.cur_op = i
             getattr(self, 'op_' + op['op'])(i, op)
@@ -321,18 +325,32 @@ class Episode(object):
 
     def finish(self):
         w = self.world
-        w.kernel.fault_stop()
-        ok = w.settle(extra_checks=self.cfg.get('final_checks', 3),
-                      max_dt=self.cfg.get('final_max_dt', 1800.0))
-        if self.stopped():
-            return
-        if not ok:
-            self.aborted = 'no_quiescence'
-            return
-        self.quiet_point()
-        self.final()
+        if not w.daemon_gone():
+            w.kernel.fault_stop()
+            ok = w.settle(extra_checks=self.cfg.get('final_checks', 3),
+                          max_dt=self.cfg.get('final_max_dt', 1800.0))
+            if self.stopped():
+                return
+            if not w.daemon_gone():
+                if not ok:
+                    self.aborted = 'no_quiescence'
+                    return
+                self.quiet_point()
+                self.final()
+                return
+        # quit / daemon restart: let the loop drain, then judge what is
+        # left without talking to the (closed) control socket
+        w.sim._step_events = []
+        w.sim._bound_events = []
+        w.run(None, max_dt=30.0)
+        self.gone = True
+        if not self.stopped():
+            self.final_gone()
 
     def final(self):
+        pass
+
+    def final_gone(self):
         pass
 
     def collect(self):
